@@ -292,9 +292,12 @@ impl LdpcDecoder for TapDecoder {
                 let mut fnz = s.first_noise.lock().unwrap();
                 let tid = std::thread::current().id();
                 if !fnz.contains_key(&tid) {
+                    // noise normalised by sigma and rounded to 1e-6: the same underlying sequence replayed at
+                    // another Eb/N0 point (other sigma, other worker threads) gives the same digest
                     let mut d = Dig::new();
                     for i in 0..tx.len() {
-                        d.f(rx[i].0 - tx[i].0).f(rx[i].1 - tx[i].1);
+                        d.u((((rx[i].0 - tx[i].0) / sigma) * 1e6).round() as i64 as u64);
+                        d.u((((rx[i].1 - tx[i].1) / sigma) * 1e6).round() as i64 as u64);
                     }
                     fnz.insert(tid, d.get());
                 }
@@ -637,7 +640,7 @@ fn run_config(l: &mut Local, cfg: &Config, modtap: bool, ebn0s: &[f32], frames_g
             l.max("worker_threads_with_distinct_first_noise", seen.len() as f64);
             if let Some((_, n)) = seen.iter().find(|(_, n)| **n > 1) {
                 l.violation(
-                    "channel noise: different worker threads receive the identical noise sequence (not independent between workers)",
+                    "channel noise: different worker threads (of the same or of another Eb/N0 point) receive the identical normalised noise sequence (not independent)",
                     det().set("workers_sharing_one_sequence", *n).set("worker_threads", fnz.len()),
                 );
             }
@@ -720,7 +723,7 @@ fn run_config(l: &mut Local, cfg: &Config, modtap: bool, ebn0s: &[f32], frames_g
 }
 
 pub fn run(run: &mut Run) {
-    run.rule = "real BerTest engine with (a) a decoder tap injected through BerTestBuilder (real BPSK/8PSK, Eb/N0 40 dB and, for BPSK, 6 dB) and (b) a modulation tap TapMod<M> + decoder tap through BerTest::new (Eb/N0 40, 3 and 8 dB); codes: RA 12x24, 6x12, dense-tail 9x15, PEG 30x60 (made systematic), RA 15x35, RA 28x63; puncturing none / tail block / information block / two blocks with pattern lengths 3..9 dividing n_cw (incl. 6-of-7 and 8-of-9 whose ratio is not exact in floating point); interleaver none or +-{2,3,4,6} dividing n; EVERY frame of EVERY worker is checked on the worker thread: length, exact +0.0 at punctured positions, bits given to the modulator = interleave(puncture(c)) for a codeword c (harness' own inverse permutation, punctured part completed by solving H), decoder LLR at every kept position bit-identical to the demodulator's LLR of that bit, signs at 40 dB, sigma = sqrt(0.5/(rate*bps*EbN0)) to 1e-12, systematic codeword (engine's own bit-error count), n/n_cw/k/rate; noise = received - modulated: mean, variance, 4th moment, lag-1, I/Q correlation, I/Q variance equality, per-symbol-position variance/mean, all at z = 6.5, and the first frame's noise vector must differ between all worker threads; non-trivial = configuration with puncturing or interleaving".into();
+    run.rule = "real BerTest engine with (a) a decoder tap injected through BerTestBuilder (real BPSK/8PSK, Eb/N0 40 dB and, for BPSK, 6 dB) and (b) a modulation tap TapMod<M> + decoder tap through BerTest::new (Eb/N0 40, 3 and 8 dB); codes: RA 12x24, 6x12, dense-tail 9x15, PEG 30x60 (made systematic), RA 15x35, RA 28x63; puncturing none / tail block / information block / two blocks with pattern lengths 3..9 dividing n_cw (incl. 6-of-7 and 8-of-9 whose ratio is not exact in floating point); interleaver none or +-{2,3,4,6} dividing n; EVERY frame of EVERY worker is checked on the worker thread: length, exact +0.0 at punctured positions, bits given to the modulator = interleave(puncture(c)) for a codeword c (harness' own inverse permutation, punctured part completed by solving H), decoder LLR at every kept position bit-identical to the demodulator's LLR of that bit, signs at 40 dB, sigma = sqrt(0.5/(rate*bps*EbN0)) to 1e-12, systematic codeword (engine's own bit-error count), n/n_cw/k/rate; noise = received - modulated: mean, variance, 4th moment, lag-1, I/Q correlation, I/Q variance equality, per-symbol-position variance/mean, all at z = 6.5, and the first frame's noise vector (normalised by sigma) must differ between all worker threads of all Eb/N0 points of the run; non-trivial = configuration with puncturing or interleaving".into();
     run.assumptions = vec![
         "statistical tests use z = 6.5 (two-sided tail 8e-11 per test); with a few thousand tests per run the false-alarm probability is below 1e-6 per run".into(),
         "expected bits per symbol come from the harness (BPSK 1, 8PSK 3), not from the library constant".into(),
@@ -734,7 +737,7 @@ pub fn run(run: &mut Run) {
         let goal = if cfg!(miri) { 40 } else if thorough { (2_000_000.0 / nsym) as u64 } else { (250_000.0 / nsym) as u64 };
         let ebn0s: Vec<f32> = match idx % 3 {
             0 => vec![40.0],
-            1 => vec![3.0],
+            1 => vec![3.0, 4.0],
             _ => vec![8.0, 40.0],
         };
         run_config(l, &cfg, true, &ebn0s, goal, idx);
